@@ -258,6 +258,11 @@ func (b *build) prepare() error {
 	for src, dst := range b.h.files {
 		overlay[filepath.Join(repo, dst)] = filepath.Join(verif, src)
 	}
+	if b.h.race {
+		if err := b.overlayNoPoolReuse(overlay); err != nil {
+			return err
+		}
+	}
 	ob, _ := json.MarshalIndent(map[string]any{"Replace": overlay}, "", " ")
 	if err := os.WriteFile(filepath.Join(b.scratch, "overlay.json"), ob, 0o644); err != nil {
 		return err
@@ -349,7 +354,11 @@ func runWorker(b *build, idx int, env []string, wall time.Duration) workerRun {
 		"VERIF_OUT="+outPath, "VERIF_SCRATCH="+wdir,
 		"VERIF_KNOWN="+filepath.Join(verif, "known_findings.json"),
 		"VERIF_REPLAY_DIR="+filepath.Join(verif, "replays"),
-		"GORACE=halt_on_error=0 log_path="+filepath.Join(wdir, "race"),
+		// -race builds only (ignored otherwise): keep running after a report, do not turn reports into
+		// an exit status or an exit delay, report every execution's races (no per-process
+		// de-duplication: confirmation/minimisation/replay re-run a schedule in the same process),
+		// deeper access history; reports are read back from <log_path>.<pid> (detsim/racelog.go)
+		"GORACE=halt_on_error=0 exitcode=0 atexit_sleep_ms=0 suppress_equal_stacks=0 suppress_equal_addresses=0 history_size=4 log_path="+filepath.Join(wdir, "race"),
 	)
 	cmd.Env = append(cmd.Env, env...)
 	var buf bytes.Buffer
